@@ -96,6 +96,16 @@ TMetric == /\ IsEvent("metric") /\ Ev.node \in cfg.nodes
 TMetricDelete == /\ IsEvent("metricDelete") /\ Ev.node \in cfg.nodes
                  /\ metric' = [metric EXCEPT ![Ev.node] = NoMetric]
                  /\ UNCHANGED <<clock, assigned>> /\ Keep /\ ObsOK(Ev)
+\* Reserve / Unreserve calls for DISTINCT pods issued concurrently (scheduling and binding goroutines); observed at
+\* quiescence: whatever the interleaving, the estimate equals the from-scratch value for the resulting placement
+RECURSIVE ParF(_, _, _)
+ParF(A, ops, i) == IF i > Len(ops) THEN A
+                   ELSE ParF(IF ops[i].op = "reserve" THEN ReserveF(A, ops[i].pod, ops[i].node, clock)
+                                                     ELSE UnreserveF(A, ops[i].pod, ops[i].node), ops, i + 1)
+TPar == /\ IsEvent("par")
+        /\ \A i \in 1..Len(Ev.ops) : Ev.ops[i].op \in {"reserve", "unreserve"} /\ Ev.ops[i].node \in cfg.nodes
+        /\ assigned' = ParF(assigned, Ev.ops, 1)
+        /\ UNCHANGED <<clock, metric>> /\ Keep /\ ObsOK(Ev)
 \* a fresh cache fed the current reports and the currently assigned pods reports the same vectors
 TRebuild == /\ IsEvent("rebuild")
             /\ UNCHANGED <<clock, metric, assigned>> /\ Keep /\ ObsOK(Ev)
@@ -125,7 +135,7 @@ TraceInit == \E i \in Starts :
                 /\ metric = [n \in SeqSet(Trace[i].nodes) |-> NoMetric]
                 /\ assigned = [n \in SeqSet(Trace[i].nodes) |-> <<>>]
 TraceNext == \/ TTick \/ TReserve \/ TUnreserve \/ TPodAdd \/ TPodUpdate \/ TPodDelete
-             \/ TMetric \/ TMetricDelete \/ TRebuild \/ TFilter \/ TEstimate
+             \/ TMetric \/ TMetricDelete \/ TRebuild \/ TFilter \/ TEstimate \/ TPar
              \/ (SegDone /\ UNCHANGED vars)
 TraceSpec == TraceInit /\ [][TraceNext]_<<vars, tvars>>
 =============================================================================
